@@ -162,6 +162,25 @@ def monitor(pid, trace_path):
     return v[0], r
 
 
+def manyorigins_stage(pid, tier, seed, verdict, prefix):
+    """The many-origins scenario (PoolKeys.tla) decided for another property: registers the violations whose tag starts with
+    `prefix` (C12: a secure-scheme request served on a connection dialled for an insecure origin)."""
+    vlib.build_harness("pool")
+    mo = os.path.join(vlib.outdir(pid), "manyorigins.ndjson")
+    n = 1100 if tier == "quick" else 5000
+    stats = json.loads(vlib.run_harness("pool", ["manyorigins", "--n", n, "--seed", seed, "--out", mo]))
+    r = vlib.tlc_trace("PoolKeysObs.tla", "PoolKeysObs.cfg", pid, mo, timeout=3000)
+    kv = r.printed("VIOL")
+    if not r.finished or len(kv) != 1:
+        raise vlib.ToolError("PoolKeysObs did not consume the trace")
+    recs = vlib.read_ndjson(mo)
+    mine = [v for v in kv[0] if v["tag"].startswith(prefix)]
+    for v in mine[:3]:
+        verdict.violation(v["tag"], f"request for {v['ro']} was served on a connection dialled for {v['co']} (record {v['l']} of the many-origins scenario)",
+                          {"kind": "pool-manyorigins", "n": n, "seed": seed, "record": recs[v["l"] - 1]})
+    return {"scenario": stats, "records": len(recs), "violations": len(mine)}
+
+
 def trace_validate(pid, path, max_restarts=8, cfg="PoolTrace.cfg"):
     """Validates a recorded real trace against Pool.tla itself (PoolTrace.tla).  Returns
     (runs accepted, runs rejected, first rejections).  A rejection is DRIFT, never an alarm."""
@@ -350,10 +369,11 @@ def run(pid, tier, seed, t0, asbuilt=None):
             raise vlib.ToolError("PoolKeysObs did not consume the trace")
         recs = vlib.read_ndjson(mo)
         nrec += len(recs)
-        for v in kv[0][:3]:
+        mine6 = [v for v in kv[0] if v["tag"].startswith("C06:")]
+        for v in mine6[:3]:
             verdict.violation(v["tag"], f"request for {v['ro']} was served on a connection dialled for {v['co']} (record {v['l']} of the many-origins scenario)",
                               {"kind": "pool-manyorigins", "n": n, "seed": seed, "record": recs[v["l"] - 1]})
-        all_viol += kv[0]
+        all_viol += mine6
         apal = None
         if tier == "thorough":
             # unbounded counter: the inductive invariant of the key map is discharged by Apalache (spec/apalache/PoolKeysInd.tla)
@@ -436,7 +456,7 @@ def replay(pid, path):
         vlib.run_harness("pool", ["manyorigins", "--n", obj["replay"]["n"], "--seed", obj["replay"]["seed"], "--out", mo])
         r = vlib.tlc_trace("PoolKeysObs.tla", "PoolKeysObs.cfg", pid, mo, timeout=3000)
         kv = r.printed("VIOL")
-        if kv and kv[0]:
+        if kv and [v for v in kv[0] if v["tag"].startswith(pid + ":")]:
             print(f"VIOLATION property={pid} replay={path}")
             return 1
         print(f"not reproduced on the current tree: {obj['key']}")
